@@ -372,7 +372,16 @@ impl<Aux> Vm<'_, Aux> {
             let instr: Instruction = unsafe { transmute(instr) };
             let src_ptr = *instr_ptr;
             #[cfg(feature = "verif-hooks")]
-            self.runtime_data.verif_on_dispatch(instr as u8);
+            {
+                self.runtime_data.verif_on_dispatch(instr as u8);
+                if self.runtime_data.verif.abort_requested.get() {
+                    return Err(payload_to_error(
+                        ExecutionErrorPayload::AssertionError("stopped by a verification monitor".into()),
+                        *instr_ptr,
+                        &self.runtime_data.call_stack,
+                    ));
+                }
+            }
             *instr_ptr += 1;
             debug!("Executing: {instr:?} instr_ptr: {instr_ptr}");
             match instr {
